@@ -72,52 +72,62 @@ class ReplayEnd(Exception):
 # ---------------------------------------------------------------------------
 
 class Chooser:
-    """Draws values from Hypothesis and logs them / replays a logged list."""
+    """Draws values from Hypothesis and logs them / replays a logged list.
+
+    Replay is keyed by label (FIFO per label), so a replay file survives a generator that later gains new draws:
+    a label absent from the log takes the draw's *default* (the first / smallest choice, which new draws are
+    written to make "the old behaviour").  A draw without default whose label is absent ends the replay: the log
+    of a failing run stops where the failure happened, so everything logged has been re-executed and held.
+    """
+
+    _NO = object()
 
     def __init__(self, data=None, log=None):
         self.data = data
         self.replaying = data is None
         self.log = [] if log is None else log
-        self.pos = 0
+        self.queues = {}
+        if self.replaying:
+            for lab, val in self.log:
+                self.queues.setdefault(lab, []).append(val)
+            for q in self.queues.values():
+                q.reverse()
 
     # -- core -------------------------------------------------------------
-    def _next(self, label, make):
+    def _next(self, label, make, default=_NO):
         if self.replaying:
-            if self.pos >= len(self.log):
-                # The log of a failing run ends where the failure happened; if the code under test no longer
-                # fails there the function asks for further draws.  All logged steps were re-executed and held.
+            q = self.queues.get(label)
+            if q:
+                return copy.deepcopy(q.pop())
+            if default is Chooser._NO:
                 raise ReplayEnd(label)
-            lab, val = self.log[self.pos]
-            if lab != label:
-                raise HarnessError(f'replay out of sync: wanted {label!r} found {lab!r}')
-            self.pos += 1
-            return copy.deepcopy(val)
+            return copy.deepcopy(default)
         val = make()
         self.log.append([label, copy.deepcopy(val)])
         return val
 
-    def draw(self, label, strategy):
+    def draw(self, label, strategy, default=_NO):
         """Generic draw; the value must be JSON-able."""
-        return self._next(label, lambda: self.data.draw(strategy, label=label))
+        return self._next(label, lambda: self.data.draw(strategy, label=label), default)
 
     def int(self, label, lo, hi):
         from hypothesis import strategies as st
-        return self._next(label, lambda: self.data.draw(st.integers(lo, hi), label=label))
+        return self._next(label, lambda: self.data.draw(st.integers(lo, hi), label=label), lo)
 
     def bool(self, label, p=None):
         from hypothesis import strategies as st
-        return self._next(label, lambda: self.data.draw(st.booleans(), label=label))
+        return self._next(label, lambda: self.data.draw(st.booleans(), label=label), False)
 
     def float(self, label, lo, hi):
         from hypothesis import strategies as st
         return self._next(label, lambda: self.data.draw(
-            st.floats(lo, hi, allow_nan=False, allow_infinity=False, allow_subnormal=False), label=label))
+            st.floats(lo, hi, allow_nan=False, allow_infinity=False, allow_subnormal=False), label=label), lo)
 
     def logfloat(self, label, lo_exp, hi_exp):
         """10**u, u uniform in [lo_exp, hi_exp]; the logged value is the float itself."""
         from hypothesis import strategies as st
         return self._next(label, lambda: 10.0 ** self.data.draw(
-            st.floats(lo_exp, hi_exp, allow_nan=False, allow_subnormal=False), label=label))
+            st.floats(lo_exp, hi_exp, allow_nan=False, allow_subnormal=False), label=label), 10.0 ** lo_exp)
 
     def choice(self, label, seq):
         """Pick an element of a sequence of JSON-able values (logged by value)."""
@@ -125,8 +135,7 @@ class Chooser:
         seq = list(seq)
         if not seq:
             raise HarnessError(f'empty choice for {label}')
-        val = self._next(label, lambda: seq[self.data.draw(st.integers(0, len(seq) - 1), label=label)])
-        return val
+        return self._next(label, lambda: seq[self.data.draw(st.integers(0, len(seq) - 1), label=label)], seq[0])
 
     def index(self, label, n):
         return self.int(label, 0, n - 1)
@@ -139,11 +148,12 @@ class Chooser:
             idx = self.data.draw(st.lists(st.integers(0, len(seq) - 1), min_size=min_size,
                                           max_size=max_size, unique=True), label=label)
             return [seq[i] for i in idx]
-        return self._next(label, make)
+        return self._next(label, make, seq[:min_size])
 
     def permutation(self, label, n):
         from hypothesis import strategies as st
-        return self._next(label, lambda: list(self.data.draw(st.permutations(list(range(n))), label=label)))
+        return self._next(label, lambda: list(self.data.draw(st.permutations(list(range(n))), label=label)),
+                          list(range(n)))
 
     def flows(self, label, n, lo_exp=-3, hi_exp=3, p_zero=None):
         """Flow vector: each entry 0 or 10**u (non-negative, finite)."""
@@ -151,7 +161,8 @@ class Chooser:
         elem = st.one_of(st.just(0.0),
                          st.floats(lo_exp, hi_exp, allow_nan=False).map(lambda u: 10.0 ** u),
                          st.sampled_from([1.0, 2.0, 0.5, 10.0]))
-        return self._next(label, lambda: self.data.draw(st.lists(elem, min_size=n, max_size=n), label=label))
+        return self._next(label, lambda: self.data.draw(st.lists(elem, min_size=n, max_size=n), label=label),
+                          [0.0] * n)
 
 
 # ---------------------------------------------------------------------------
